@@ -130,6 +130,16 @@ func (t *table) handlerGen(idx int, gen int) httpd.HandlerFunc {
 				t.mux.ServeHTTP(s.W, req2)
 			}()
 		}
+		switch s.R.Header.Get("X-Swap") {
+		case "W", "WP":
+			// a middleware-style handler wraps the response writer of its Store
+			s.W = &httpd.ResponseWriter{Origin: s.W}
+		}
+		switch s.R.Header.Get("X-Swap") {
+		case "P", "WP":
+			// ... or works on a Params of its own (a copy it may extend without touching the routing table's names)
+			s.P = &httpd.Params{K: append([]string(nil), s.P.K...), V: append([]string(nil), s.P.V...)}
+		}
 		rec.In = takeSnap(t, s)
 		if s.R.Header.Get("X-Panic") != "" {
 			panic(panicMarker{idx})
@@ -212,12 +222,16 @@ type request struct {
 	panics       bool
 	writes       bool
 	forward      *request // the handler forwards this request through the same Mux first (Store.W as the writer)
+	swap         string   // "", "W", "P", "WP": the handler replaces Store.W / Store.P by objects of its own
 }
 
 func (rq request) String() string {
 	s := fmt.Sprintf("%s %q", rq.method, rq.path)
 	if rq.forward != nil {
 		s += fmt.Sprintf(" [handler forwards %s %q through the Mux]", rq.forward.method, rq.forward.path)
+	}
+	if rq.swap != "" {
+		s += " [handler replaces Store." + strings.Join(strings.Split(rq.swap, ""), " and Store.") + "]"
 	}
 	if rq.panics {
 		s += " [handler panics]"
@@ -236,6 +250,9 @@ func (t *table) serve(rq request) (rec *record, escaped any) {
 	}
 	if rq.writes {
 		req.Header.Set("X-Status", "1")
+	}
+	if rq.swap != "" {
+		req.Header.Set("X-Swap", rq.swap)
 	}
 	if rq.forward != nil {
 		req.Header.Set("X-Forward-Method", rq.forward.method)
@@ -421,6 +438,10 @@ func runMachine(t *rapid.T, concurrent bool) {
 			path:   genPathFor(tb.routes).Draw(t, "path"),
 			panics: panics,
 			writes: !panics && rapid.IntRange(0, 3).Draw(t, "writes") == 0,
+		}
+		if rapid.IntRange(0, 5).Draw(t, "swaps") == 0 {
+			rq.swap = rapid.SampledFrom([]string{"W", "P", "WP"}).Draw(t, "swap")
+			ev.Label("request:handler_replaces_Store_W_or_P")
 		}
 		if rapid.IntRange(0, 5).Draw(t, "forwards") == 0 {
 			rq.forward = &request{method: rapid.SampledFrom([]string{"GET", "POST"}).Draw(t, "fwdMethod"), path: genPathFor(tb.routes).Draw(t, "fwdPath")}
